@@ -252,6 +252,8 @@ func schemaTyped() *fakeMD {
 		&fakeFD{name: "long_name", json: "longName", kind: protoreflect.StringKind},
 		&fakeFD{name: "bo", kind: protoreflect.BoolKind},
 		vfOneofMember("o1", 0), vfOneofMember("o2", 1),
+		&fakeFD{name: "wi", kind: protoreflect.MessageKind, msg: vfWKTMD("Int32Value")},
+		&fakeFD{name: "wm", kind: protoreflect.MessageKind, msg: vfWKTMD("FieldMask")},
 	)
 }
 
@@ -506,6 +508,9 @@ func (m *fakeMsg) Mutable(fd protoreflect.FieldDescriptor) protoreflect.Value {
 	}
 	if f.msg == nil {
 		panic("verif fake: Mutable on a scalar field " + n)
+	}
+	if v, ok := m.vals[n]; ok {
+		return v // a real (generated) message stored by Set: natively the well-known types
 	}
 	s, ok := m.subs[n]
 	if !ok {
